@@ -12,6 +12,12 @@ COMMON_NOTE = (
 )
 
 CHECKS = {
+    "C08": dict(
+        technique="bounded-exhaustive enumeration of link files / .cap files (block shapes, ordered pairs and triples, all line permutations, extension-stripping modes) with a reference reading of the manual applied on top of the metadata-free listing, on the implementation",
+        text="Link files of 1-3 blocks over 25 block shapes (overrides of ./name with each field, hide codes X and -, Host/Port +, one-line and continued abstracts, new entries with absolute, relative and URL: paths, positive, equal, zero and negative Numb, comments), in one file and split over two, "
+             "each override also as a .cap file next to every other block, every permutation of the lines of each block, and the three extstrip modes are listed by the real UMN handler; the Gopher menu must equal the manual's reading (entries, fields, abstracts, order: numbered ascending, unnumbered by title, negatives) up to ties on number and title.",
+        design_ref="DESIGN.md 3/C08",
+    ),
     "C13": dict(
         technique="bounded-exhaustive enumeration of metacharacter payloads x echo positions, differential on the parsed element/attribute skeleton against an inert payload of the same shape, on the implementation",
         text="Every payload of <=3 (quick) / <=4 (thorough) characters over < > & \" ' CR LF a SP / = ; is placed in each of 16 positions where request or content text is echoed into generated markup (selector in the HTTP 404 page / WAP error card / URL redirect page, search string, file and directory names and titles, HTML <title>, mail Subject, abstracts, link-file Name/Path/Host, gophermap description/selector/host, text converted to WML, Gopher+ sidecars) "
